@@ -122,8 +122,17 @@ def gen(rng):
             d = rng.uniform(lo, hi)
             if all(abs(x - d) > 1e-3 * (hi - lo) for x in ds):
                 break
-    elif r < 0.85:
+    elif r < 0.83:
         d = rng.choice([lo - 0.5, hi + 0.5])
+    elif r < 0.92:
+        # close to a vertex but clear of it (well beyond parry's epsilon and the section tolerance): consecutive section
+        # vertices are then only 1e-5 .. 1e-3 of the size apart
+        for _ in range(100):
+            d = rng.choice(ds) + rng.choice([-1, 1]) * rng.choice([3e-5, 1e-4, 3e-4]) * (hi - lo)
+            if lo < d < hi and all(abs(x - d) > 1e-5 * (hi - lo) for x in ds):
+                break
+        else:
+            d = (lo + hi) / 2
     else:
         probe = True
         d = rng.choice(ds)
